@@ -17,14 +17,70 @@ FF = "full"
 MIN = "min"
 
 PROPS = {
+    "C03": {
+        "ops": [("of", FF, 12000, 400000), ("wrap", FF, 4000, 150000), ("fill2", FF, 2000, 50000)],
+        "explanation": "theorems: the DP value is a lower bound for EVERY arrangement (Bellman, <=2 line widths), attained by back-tracking any true column minima (conditional on ColMin for smawk, which is not proved), the reference search satisfies ColMin, three widths are a counterexample, wrap hands exactly two widths to the algorithm; L1/L2: exact cost (Q) of the implementation's arrangement = the DP optimum for every generated fragment list inside the precondition, and for every paragraph partition recorded at the wrap level",
+        "assumptions": ["ColMin: smawk::online_column_minima returns true column minima on this matrix — NOT proved, exercised on every generated case by the exact-cost comparison"],
+    },
+    "C06": {
+        "ops": [("ff", FF, 12000, 300000), ("of", FF, 8000, 200000), ("ff", MIN, 3000, 50000), ("wrap", FF, 3000, 60000)],
+        "explanation": "theorems C06_first_fit (every Num) and C06_optimal_fit (any minima with smawk's structural row<column shape); L1 compares first-fit groups exactly and optimal-fit groups up to equal exact cost; L2 checks the partition shape of the implementation's slices (pointer offsets) and of every recorded wrap-level partition",
+        "assumptions": ["smawk returns one entry per column with row < column (its own assert!) — minima_ok"],
+    },
+    "C07": {
+        "ops": [("ff", FF, 15000, 400000), ("ff", MIN, 4000, 60000), ("wrap", FF, 3000, 60000), ("wrap", MIN, 2000, 40000)],
+        "explanation": "theorems: first_fit is Greedy and Greedy determines the arrangement uniquely (NumZ); greedy_b is proved equivalent to Greedy and run (Q arithmetic) on the implementation's lines; text level through the wrap correspondence",
+        "assumptions": ["f64 = exact Z/Q on the generated range"],
+    },
+    "C09": {
+        "ops": [("wrap9", FF, 6000, 150000), ("wrap9", MIN, 2000, 40000)],
+        "explanation": "theorems C09_prefix/tail_independent/empty_indents/line_count/fill_is_join/crlf_equivariant for any optimal-fit oracle that returns a partition; L1 on seven related calls per case; L2 evaluates each relation on the implementation's results",
+        "assumptions": ["the optimal-fit oracle returns at least one line and does not invent words (follows from C06)"],
+    },
     "C10": {
         "ops": [("dw", FF, 20000, 300000), ("dw", MIN, 6000, 100000)],
         "explanation": "theorems C10_wellformed/additive/insert/le_blen/widths about Model/Esc.v; L1 compares display_width with the extracted model under both feature sets; the per-character table is dumped from the implementation for all 1,112,064 scalars and re-proved (cw c <= utf8_len c) each run",
         "assumptions": ["per-character widths are a table read off the implementation (unicode-width is not modelled further)"],
     },
-    "C06": {
-        "ops": [("ff", FF, 12000, 300000), ("of", FF, 8000, 200000), ("ff", MIN, 3000, 50000)],
-        "explanation": "theorems C06_first_fit (every Num) and C06_optimal_fit (any minima with smawk's structural row<column shape); L1 compares first-fit groups exactly and optimal-fit groups up to equal exact cost; L2 checks the partition shape of the implementation's slices (pointer offsets)",
-        "assumptions": ["smawk returns one entry per column with row < column (its own assert!) — minima_ok"],
+    "C11": {
+        "ops": [("fwa", FF, 8000, 200000), ("fwu", FF, 8000, 200000), ("fwa", MIN, 3000, 50000)],
+        "explanation": "theorems: both separators are Lossless (Unicode: for any oracle answer); ASCII boundaries are exactly the space/non-space transitions; Unicode boundaries are the kept opportunities, each mapped to the first top-level position with that stripped offset; L2 recomputes the expected boundaries from unicode_linebreak's answer",
+        "assumptions": ["OracleOK: linebreaks() is strictly increasing, on char boundaries, > 0, last = length — asserted on every generated case"],
+    },
+    "C12": {
+        "ops": [("hp", FF, 5000, 100000), ("sw", FF, 5000, 100000), ("ba", FF, 6000, 150000), ("bw", FF, 4000, 100000), ("ba", MIN, 2000, 40000), ("sw", MIN, 1500, 30000)],
+        "explanation": "theorems C12_split/hyphen_points/break_lossless/bounded/maximal/escape_safe/small_words_unchanged; L2 re-derives every clause on the implementation's pieces",
+        "assumptions": ["char::is_alphanumeric is a table dumped from the implementation"],
+    },
+    "C15": {
+        "ops": [("unfill15", FF, 8000, 200000), ("unfill", FF, 8000, 200000), ("unfill15", MIN, 2000, 40000)],
+        "explanation": "theorems: C15_roundtrip (full equality for any partition of the words, i.e. any width and either algorithm), C15_total/structure/line_ending for ALL strings; L2 checks the round trip on fill's real output and the structural half on raw strings",
+        "assumptions": ["the round-trip theorem is about texts of the shape `filled`; that fill produces this shape is carried by the L1 correspondence of fill and by C01"],
+    },
+    "C16": {
+        "ops": [("refill16", FF, 8000, 200000), ("refill16", MIN, 2000, 40000)],
+        "explanation": "theorems C16_refill (refill of a filled paragraph = fill of the words with the recovered indents, trailing ending converted) and C16_independent_of_old_width; L2 compares refill(fill(t,o1),o2) with fill(t,o2 with o1's indents) on the implementation",
+        "assumptions": ["as C15"],
+    },
+    "C17": {
+        "ops": [("fip", FF, 10000, 250000), ("fip", MIN, 3000, 50000)],
+        "explanation": "theorems C17_total/shape/agrees_with_wrap; L2 checks length, the only-space-to-newline difference and equality with wrap (documented options) on the implementation",
+        "assumptions": ["cw c <= utf8_len c (C10_widths)"],
+    },
+    "C18": {
+        "ops": [("dedent", FF, 8000, 200000), ("dedent18", FF, 8000, 200000)],
+        "explanation": "theorems C18_margin/margin_is_longest/spec/idempotent (outside the known-finding class)/dedent_indent; L2 compares dedent with the declarative spec and checks idempotence and dedent-after-indent on the implementation",
+        "assumptions": [],
+    },
+    "C19": {
+        "ops": [("indent", FF, 10000, 250000)],
+        "explanation": "theorems C19_spec/line_structure/empty_prefix; L2 compares with the declarative spec",
+        "assumptions": [],
+    },
+    "C20": {
+        "ops": [("wc", FF, 5000, 120000), ("wc", MIN, 1500, 30000)],
+        "explanation": "theorems C20_total/shape/column_major/row_width; L2 rebuilds the rows from wrap's lines at the column width and compares",
+        "assumptions": ["cw SP = 1; columns small enough to iterate"],
     },
 }
+NOT_CLAIMED = {}
